@@ -234,6 +234,9 @@ def check_tree(prop, tier, replay):
         nscen += modes["orders"]
         mdist += modes["states"]
         mgen += modes["generated"]
+    if prop == "C08":
+        # unbounded counterpart of ReadyImpliesParent / SilentBeforeReady (any universe, any number of mutations and refilters)
+        mnames = mnames + [vlib.prove("FilterNodeProofs")]
     if prop == "C12":
         # joins: closing a join result, and asking for a join on bases that have shut down, leaves nothing behind
         import fam_filters
@@ -250,6 +253,8 @@ def check_tree(prop, tier, replay):
         st = fam_filters.run_typed(res, tier, {"typed-monitor-protocol", "crash"})
         nscen += st["snaps"]
         lines += st["lines"]
+        # unbounded (any MaxEvents, any buffer) counterpart of Monitor.cfg's Serial / InitFirstOnce / InOrder
+        mnames = mnames + [vlib.prove("MonitorProofs")]
     res.coverage = {
         "states": mdist, "transitions": mgen, "design_models": mnames,
         "traces_validated_against_impl": nscen,
